@@ -14,12 +14,14 @@ func init() { register("C10", "other", checkC10) }
 
 func checkC10(w *World, r *Result) {
 	r.Explanation = "Decides structural necessary conditions on analysis/enums.go: AGR-C10m a member is appended once per scope name under exactly the three filters (is a constant, its type is named, no opt-out comment), keyed by the constant's own named type, carrying the constant and its own comment; PTH-C10a every store of true into IsIota is dominated by the integer-kind test, by the per-member 'not an int64 or negative => return' test, by the gap test against max+1, by a duplicate rejection, and is preceded on its path by the sort of the members by value; the sort helper swaps every parallel slice and compares the values; AGR-C10b the population the iota test counts (exported constants) is the population positional consumers enumerate (Dart names/values, randdata choices skip exactly the unexported ones). Does not decide: the trailing-comment lookup against the syntax tree, same-name enums in two packages, exactness of values (go/constant's job)."
-	r.Rules = []string{"AGR-C10m membership filters", "AGR-C10k comment lookup", "AGR-C10r import filter", "PTH-C10a iota flag dominance", "AGR-C10s sort helper", "SORT-PAR", "MEMO-KEY", "AGR-C10b population agreement", "STATE-PKG", "MUT-AN"}
+	r.Rules = []string{"AGR-C10m membership filters", "AGR-C10k comment lookup", "AGR-C10r import filter", "AGR-C10p import prefix", "PTH-C10a iota flag dominance", "AGR-C10s sort helper", "SORT-PAR", "MEMO-KEY", "AGR-C10b population agreement", "STATE-PKG", "MUT-AN", "POS-ORDER"}
+	posOrderRule(w, r, func(rel string) bool { return rel == "analysis" })
 	mutAnRule(w, r, nil)
 	statePkgRule(w, r, func(rel string) bool { return rel == "analysis" })
 	checkEnumMembers(w, r)
 	checkCommentLookup(w, r)
 	checkSelectorRoot(w, r)
+	checkSelectorPrefix(w, r)
 	memoKeyRule(w, r, func(rel string) bool { return rel == "analysis" })
 	checkSetIsIota(w, r)
 	checkEnumConsumers(w, r)
@@ -302,6 +304,7 @@ func checkSetIsIota(w *World, r *Result) {
 		r.cond(gapOK, "PTH-C10a", name, "flag => no gap (count == max+1)", pos, "dominated by the comparison of the number of exported values with max+1", "no gap test against max+1 dominates the store: enums with holes are flagged iota-like")
 		// (3) sort precedes the store in the same statement list, nothing but the sort in between
 		sortOK := false
+		nReorder, otherReorder := 0, ""
 		ast.Inspect(fi.Decl.Body, func(x ast.Node) bool {
 			b, ok := x.(*ast.BlockStmt)
 			if !ok {
@@ -316,12 +319,30 @@ func checkSetIsIota(w *World, r *Result) {
 						if call, ok := e.X.(*ast.CallExpr); ok {
 							f := fullName(calleeOf(info, call))
 							if f == "sort.Sort" || f == "sort.Stable" || f == "sort.Slice" || f == "sort.SliceStable" {
+								mentions := false
 								ast.Inspect(call, func(y ast.Node) bool {
 									if sel, ok := y.(*ast.SelectorExpr); ok && sel.Sel.Name == "Members" {
-										sortOK = true
+										mentions = true
 									}
 									return true
 								})
+								if mentions {
+									nReorder++
+									byValue := f == "sort.Sort" || f == "sort.Stable" // the sortBy helper, checked by AGR-C10s
+									if lit := comparatorLit(info, fi, call.Args[len(call.Args)-1]); lit != nil && !byValue {
+										ast.Inspect(lit.Body, func(y ast.Node) bool {
+											if be, ok := y.(*ast.BinaryExpr); ok && (be.Op == token.LSS || be.Op == token.GTR) {
+												byValue = true
+											}
+											return true
+										})
+									}
+									if byValue {
+										sortOK = true
+									} else {
+										otherReorder = w.Pos(call.Pos())
+									}
+								}
 							}
 						}
 					}
@@ -332,6 +353,10 @@ func checkSetIsIota(w *World, r *Result) {
 			}
 			return true
 		})
+		if otherReorder != "" {
+			r.bad("PTH-C10a", name, "members re-ordered after the sort by value", otherReorder, "between the sort of the members by value and the store of IsIota=true the members are re-ordered by another criterion (and by an unstable sort): the exported members no longer have the values 0,1,2,… in the reported order, which is what the flag promises to positional consumers")
+		}
+		_ = nReorder
 		r.cond(sortOK, "PTH-C10a", name, "flag => members sorted by value", pos, "the sort of Members (by value) is the statement run before the store on every path", "the store of IsIota=true is not preceded by the sort of the members by value: positional consumers see members in declaration-name order")
 	}
 	// (4) per-member validity: `!ok || v < 0 => return` dominates the bookkeeping
@@ -568,6 +593,27 @@ func checkCommentLookup(w *World, r *Result) {
 	if n == 0 {
 		Undecided("AGR-C10k: fetchConstComment has no `return \"\"`")
 	}
+	// the text itself: what go/ast defines as the text of the comment group (markers //, /* */ removed, lines joined)
+	viaText := false
+	ast.Inspect(fi.Decl.Body, func(x ast.Node) bool {
+		ret, ok := x.(*ast.ReturnStmt)
+		if !ok || len(ret.Results) != 1 {
+			return true
+		}
+		if tv := info.Types[ret.Results[0]]; tv.Value != nil {
+			return true
+		}
+		ast.Inspect(ret.Results[0], func(y ast.Node) bool {
+			if call, ok := y.(*ast.CallExpr); ok && fullName(calleeOf(info, call)) == "(*go/ast.CommentGroup).Text" {
+				viaText = true
+			}
+			return true
+		})
+		r.cond(viaText, "AGR-C10k", fi.Name, "comment text = CommentGroup.Text()", w.Pos(ret.Pos()),
+			"the returned comment is go/ast's text of the trailing comment group",
+			"the comment is not obtained from (*ast.CommentGroup).Text(): a hand-rolled stripping of the markers handles `//` only, so a `/* … */` trailing comment keeps its markers in the member's comment (and in every label generated from it)")
+		return true
+	})
 }
 
 // checkSelectorRoot (AGR-C10r): the import filter of the enum/union walk (which imported packages belong to the
@@ -594,6 +640,18 @@ func checkSelectorRoot(w *World, r *Result) {
 				}
 			}
 		}
+		// the enclosing function itself must not be re-entered for the imports (its parameter is then the visited package)
+		selfRec := false
+		ast.Inspect(fi.Decl.Body, func(y ast.Node) bool {
+			if c2, ok := y.(*ast.CallExpr); ok && calleeOf(info, c2) == fi.Obj {
+				selfRec = true
+			}
+			return true
+		})
+		if selfRec {
+			r.bad("AGR-C10r", fi.Name, "import filter rebuilt at every level: "+es(call), w.Pos(call.Pos()), "fetchEnumsAndUnions calls itself for the imports, so its parameter is the package being visited and the import filter is rebuilt from it at every level: while visiting a sub-package its own path becomes the prefix and its sibling packages are ignored")
+			return true
+		}
 		r.cond(isRoot, "AGR-C10r", fi.Name, "import filter built from the root package: "+es(call), w.Pos(call.Pos()),
 			"NewPkgSelector receives the parameter of fetchEnumsAndUnions",
 			"the import filter is built from `"+es(call.Args[0])+"`, not from the root package: while visiting a sub-package its own path becomes the prefix, so its sibling packages are ignored and the enums and unions declared there are analysed as plain named types")
@@ -602,4 +660,39 @@ func checkSelectorRoot(w *World, r *Result) {
 	if n == 0 {
 		Undecided("AGR-C10r: fetchEnumsAndUnions no longer calls NewPkgSelector")
 	}
+}
+
+// checkSelectorPrefix (AGR-C10p): the import filter keeps a package when its path starts with the prefix
+// <domain>/<org> computed from the root package. The prefix and the test belong together: a prefix that ends with
+// the separator needs a test that also accepts the path equal to the prefix without it (a module whose root
+// package is exactly <domain>/<org>), otherwise that package is skipped and its enums and unions are lost.
+func checkSelectorPrefix(w *World, r *Result) {
+	ns := w.MustFunc("analysis.NewPkgSelector")
+	ig := w.MustFunc("analysis.(PkgSelector).ignorePath")
+	info := ns.Pkg.TypesInfo
+	endsWithSep := false
+	var at ast.Node = ns.Decl
+	ast.Inspect(ns.Decl.Body, func(x ast.Node) bool {
+		as, ok := x.(*ast.AssignStmt)
+		if !ok || len(as.Lhs) != 1 || len(as.Rhs) != 1 || es(as.Lhs[0]) != "prefix" {
+			return true
+		}
+		if be, ok := ast.Unparen(as.Rhs[0]).(*ast.BinaryExpr); ok && be.Op == token.ADD {
+			if tv := info.Types[be.Y]; tv.Value != nil && tv.Value.Kind() == constant.String && strings.HasSuffix(constant.StringVal(tv.Value), "/") {
+				endsWithSep = true
+				at = as
+			}
+		}
+		return true
+	})
+	hasEquality := false
+	ast.Inspect(ig.Decl.Body, func(x ast.Node) bool {
+		if be, ok := x.(*ast.BinaryExpr); ok && be.Op == token.EQL && strings.Contains(es(be), "path") {
+			hasEquality = true
+		}
+		return true
+	})
+	r.cond(!endsWithSep || hasEquality, "AGR-C10p", ns.Name, "prefix and prefix test agree", w.Pos(at.Pos()),
+		"the prefix has no trailing separator (or the test also accepts the path equal to it)",
+		"the prefix now ends with `/` while ignorePath still only tests strings.HasPrefix(path, prefix): the package whose path is exactly <domain>/<org> (the module's root package) no longer matches, is skipped by the walk, and the enums and unions it declares are analysed as plain named types")
 }
